@@ -168,7 +168,8 @@ func parseBack(cs counters.CounterStyle, q query, impl string) string {
 	return ""
 }
 
-// ---- values outside int32: run in a child process (the real code dies of stack exhaustion) ----
+// ---- values outside int32: regression probe in a child process (before the fix c5a853c the real code
+// died of stack exhaustion there, which no recover() can catch) ----
 
 const childEnv = "WRH_C19_CHILD"
 
@@ -192,7 +193,7 @@ func runOverflow(out *res.Result) error {
 	for _, c := range []struct {
 		v     int
 		style string
-	}{{2147483647, "decimal"}, {2147483648, "decimal"}, {-2147483649, "lower-roman"}} {
+	}{{2147483648, "decimal"}, {-2147483649, "lower-roman"}, {1 << 40, "upper-alpha"}, {-(1 << 62), "decimal-leading-zero"}, {99999999999, "cjk-decimal"}} {
 		cmd := exec.Command(exe, "trace")
 		cmd.Env = append(os.Environ(), fmt.Sprintf("%s=%d:%s", childEnv, c.v, c.style))
 		done := make(chan struct{})
@@ -211,6 +212,9 @@ func runOverflow(out *res.Result) error {
 		in := fmt.Sprintf(`{"api":"RenderValue","style":%q,"value":%d}`, c.style, c.v)
 		out.Count("overflow|"+in, true)
 		want := fmt.Sprintf("RESULT %q\n", strconv.Itoa(c.v))
+		if c.style == "upper-alpha" || c.style == "cjk-decimal" { // in range for these: judged by the in-process runs, here only "returns"
+			want = "RESULT "
+		}
 		switch {
 		case timeout || strings.Contains(txt, "stack overflow") || strings.Contains(txt, "stack exceeds"):
 			out.Hit("impl:stack-exhaustion")
